@@ -378,6 +378,13 @@ func (s *Server) doDelete(prefix *gnmi.Path, gnmiPath *gnmi.Path, target *target
 	if isExactMatch && rwPath.IsAKey && !strings.HasSuffix(path, "]") { // In case an index attribute is given - take it off
 		path = path[:strings.LastIndex(path, "/")]
 	}
+	// The index values of a deleted path obey the same rules as those of an updated path
+	_, indexValues := pathutils.ExtractIndexNames(path)
+	for _, indexValue := range indexValues {
+		if err := pathutils.CheckPathIndexIsValid(indexValue); err != nil {
+			return err
+		}
+	}
 	target.removes = append(target.removes, path)
 	return nil
 }
